@@ -6,7 +6,7 @@ MANIFEST = dict(
     text="Theorems in coq/Properties/C10*.v, for every state with status <> LEADER and every client request without the from-AOF flag: the only event is a STATE_ERROR reply to the requester (TIMEOUT for the concurrent-check probe) and the engine state is unchanged extensionally; a persisted hold on a non-leader is re-armed (+30 s) instead of being ended while within 300 s of its deadline. Tie = differential correspondence on seeded histories with role changes between requests and from-AOF (replicated) requests applied while follower, comparing replies and full snapshots; monitor = the same statement on implementation traces. The forwarding path (transparency.go) is not modelled: partial, see DESIGN.md.",
     note="Trusted: Coq kernel; model validated by the correspondence check; role is switched by the harness under the shard mutex as updateState does. Not covered by the theorem: TransparencyBinary/TextServerProtocol forwarding and relay (observed only / not exercised in the quick tier).",
 )
-PROFILES = [("role", 1.0)]
+PROFILES = [("role", 0.75), ("schedrole", 0.25)]
 MONITORS = ["C10", "PANIC"]
 
 
